@@ -49,6 +49,10 @@ def spec_of(name):
         n["row"] = {"content": "cell+"}
         n["cell"] = {"content": "block+", "isolating": True}
         return {"nodes": n, "marks": _bm}
+    if name == "ni":
+        # two non-inclusive marks adjacent in rank (link, comment) beside inclusive ones
+        m = {"link": _bm["link"], "comment": {"inclusive": False, "excludes": ""}, "em": _bm["em"], "strong": _bm["strong"]}
+        return {"nodes": ln, "marks": m}
     if name.startswith("mx"):
         return {"nodes": {"doc": {"content": "block+"},
                           "paragraph": {"content": "inline*", "group": "block"},
@@ -70,7 +74,7 @@ MX = {
     "mx6": {"m0": {}, "m1": {"inclusive": False}, "m2": {"excludes": "m0 m1"}, "m3": {"excludes": "_"}},
 }
 
-ALL = ["basic", "list", "strict", "title", "fixed", "docmarks", "iso", "table", "mx1", "mx2", "mx3", "mx4", "mx5", "mx6"]
+ALL = ["basic", "list", "strict", "title", "fixed", "docmarks", "iso", "table", "ni", "mx1", "mx2", "mx3", "mx4", "mx5", "mx6"]
 
 _cache = {}
 
